@@ -39,6 +39,10 @@ pub enum Start {
     AfterRemoved,
     /// last-id = the newest pre-existing frame
     AfterLast,
+    /// last-id = a stored frame whose id lies ahead of every id this store will mint (imported
+    /// from a machine whose clock runs ahead): nothing stored follows it, yet whatever is
+    /// appended after the subscription must still be delivered
+    AfterFuture,
     Tail,
 }
 
@@ -77,6 +81,7 @@ pub fn strategy() -> BoxedStrategy<C03Case> {
             2 => any::<u16>().prop_map(Start::AfterExisting),
             1 => Just(Start::AfterRemoved),
             1 => Just(Start::AfterLast),
+            1 => Just(Start::AfterFuture),
             2 => Just(Start::Tail),
         ],
         proptest::option::weighted(0.4, 0u8..3),
@@ -212,12 +217,33 @@ pub fn run_case(case: &C03Case) -> Result<CaseInfo, Fail> {
 }
 
 fn run_in(case: &C03Case, exec: &mut Exec) -> Result<CaseInfo, Fail> {
-    let p = prepare_with(exec, case.pre, case.pre_removed, case.expired_every)?;
+    let mut p = prepare_with(exec, case.pre, case.pre_removed, case.expired_every)?;
+    let future_id = scru128::Scru128Id::from_fields((1u64 << 47) + 5, 0, 0, 1).to_u128();
+    if matches!(case.start, Start::AfterFuture) {
+        let fs = FrameSpec {
+            topic: "future".into(),
+            ctx: ZERO,
+            id: Some(future_id),
+            hash: None,
+            meta: None,
+            ttl: None,
+        };
+        must("import future frame", exec.import(&fs))?;
+        p.pre.push(WFrame {
+            id: id_str(future_id),
+            ctx: id_str(ZERO),
+            topic: "future".into(),
+            hash: None,
+            meta: None,
+            ttl: None,
+        });
+    }
     let scope = case.ctx.map(|c| p.ctxs[c as usize % 3]);
     let (tail, last_id) = match &case.start {
         Start::Beginning => (false, None),
         Start::Tail => (true, None),
         Start::AfterLast => (false, p.pre.last().map(|w| w.id128())),
+        Start::AfterFuture => (false, Some(future_id)),
         Start::AfterRemoved => (false, p.removed.first().map(|w| w.id128())),
         Start::AfterExisting(k) => (
             false,
@@ -348,7 +374,10 @@ fn evaluate(case: &C03Case, p: &Prepared, opts: &ROpts, res: &ScenarioResult) ->
         if !in_scope(w, opts.ctx) {
             return Err(Fail::new(Class::ScopeContext, format!("follower scoped to {:?} got frame {} of context {}", opts.ctx.map(id_str), w.id, w.ctx)));
         }
-        if !after_start(w) {
+        // (a frame appended after the read was called is delivered whatever its id: with a
+        // cursor ahead of the store's clock it is smaller than the cursor)
+        let appended_since = appended.get(&w.id).map(|(_, _, t2)| *t2 > f.called_at_us).unwrap_or(false);
+        if !after_start(w) && !appended_since {
             return Err(Fail::new(Class::ScopeLastId, format!("follower got frame {} at or before its last-id", w.id)));
         }
         // nothing that should not exist for this reader
@@ -381,7 +410,8 @@ fn evaluate(case: &C03Case, p: &Prepared, opts: &ROpts, res: &ScenarioResult) ->
             .find(|it| it.frame.topic != "xs.pulse" && it.frame.topic != "xs.threshold")
             .map(|it| it.frame.id128())
     });
-    for w in fin.iter().filter(|w| in_scope(w, opts.ctx) && after_start(w)) {
+    let appended_after_sub = |w: &WFrame| appended.get(&w.id).map(|(_, t1, _)| *t1 > f.subscribed_at_us).unwrap_or(false);
+    for w in fin.iter().filter(|w| in_scope(w, opts.ctx) && (after_start(w) || appended_after_sub(w))) {
         let must_have = if opts.tail {
             appended.get(&w.id).map(|(_, t1, _)| *t1 > f.subscribed_at_us).unwrap_or(false)
         } else {
